@@ -13,24 +13,30 @@ CONSTANTS L,       \* listener ids
 VARIABLES present,   \* listeners currently attached to the world
           log,       \* deliveries of the last frame: set of <<listener, dt>> (each at most once by construction of a set,
                      \* the replay compares bags)
-          ret, frames
+          ret, frames,
+          moved      \* how many times the processor instance was installed in another world
 
-vars == <<present, log, ret, frames>>
+vars == <<present, log, ret, frames, moved>>
 
-Init == present = {} /\ log = {} /\ ret = "ok" /\ frames = 0
+Init == present = {} /\ log = {} /\ ret = "ok" /\ frames = 0 /\ moved = 0
 
-Attach(l) == l \notin present /\ present' = present \cup {l} /\ log' = {} /\ ret' = "ok" /\ UNCHANGED frames
-Detach(l) == l \in present /\ present' = present \ {l} /\ log' = {} /\ ret' = "ok" /\ UNCHANGED frames
+Attach(l) == l \notin present /\ present' = present \cup {l} /\ log' = {} /\ ret' = "ok" /\ UNCHANGED <<frames, moved>>
+Detach(l) == l \in present /\ present' = present \ {l} /\ log' = {} /\ ret' = "ok" /\ UNCHANGED <<frames, moved>>
 
 \* world.process(dt) with the OnUpdateProcessor: dispatch on_update(dt)
 Frame(dt) == /\ frames < 4 /\ frames' = frames + 1
-             /\ log' = {<<l, dt>> : l \in present} /\ ret' = "ok" /\ UNCHANGED present
+             /\ log' = {<<l, dt>> : l \in present} /\ ret' = "ok" /\ UNCHANGED <<present, moved>>
 \* listener f raises in its callback: the listeners visited before it (iteration order: a choice) got the dt
 FrameFault(dt, f) == /\ frames < 4 /\ frames' = frames + 1 /\ f \in present
                      /\ \E before \in SUBSET (present \ {f}) : log' = {<<l, dt>> : l \in before \cup {f}}
-                     /\ ret' = "raised" /\ UNCHANGED present
+                     /\ ret' = "raised" /\ UNCHANGED <<present, moved>>
+
+\* the very same processor INSTANCE is installed in another world (add_processor there), to which the listeners move as
+\* well: "its world" is the one it is installed in now - nothing remembered from earlier frames may point elsewhere
+Reinstall == frames > 0 /\ frames < 4 /\ moved < 1 /\ moved' = moved + 1 /\ log' = {} /\ ret' = "ok" /\ UNCHANGED <<present, frames>>
 
 Next == \/ (\E l \in L : Attach(l) \/ Detach(l))
+        \/ Reinstall
         \/ (\E dt \in Dts : Frame(dt))
         \/ (\E dt \in Dts, f \in L : FrameFault(dt, f))
 Spec == Init /\ [][Next]_vars
